@@ -90,6 +90,9 @@ func main() {
 		}
 		for p, r := range res {
 			fmt.Printf("%s: failed=%v panic=%q diverged=%q timed_out=%v %.2fs\n", p, r.Failed, r.Panic, r.Diverged, r.TimedOut, r.Seconds)
+			for _, n := range r.Notes {
+				fmt.Println("   note:", n)
+			}
 			if len(r.Failed) > 0 || r.Panic != "" || r.TimedOut {
 				defer os.Exit(1)
 			}
